@@ -17,7 +17,7 @@ PLENS = [0, 0, 1, 2, 7, 64, 255, 256, 257, 300]
 class C06(Machine):
     prop = "C06"
     title = "RC4 object is one continuous stream"
-    runs = (2500, 80000)
+    runs = (4000, 150000)
     components = {"real": ["crysp.rc4 RC4", "crysp.poly Poly/pack", "crysp.bits"],
                   "stub": ["models/rc4_ref.py (reference RC4 KSA/PRGA stream object)"]}
     rule = ("one evaluation = one simulated run: 1-2 clients issue 2-10 enc/dec/keystream operations (piece lengths incl. 0, 1, "
